@@ -271,6 +271,19 @@ pub fn catalogue(thorough: bool) -> Value {
             "options": {"dedup_ms": 0, "df_filter": null, "aircraft_filter": null, "via": "cli", "rest": true}, "events": rev}));
     }
 
+    // the expiry task (thorough only: it wakes up every 60 s): an aircraft heard once a second through formats that
+    // leave no history (DF4 / DF11) for 70 s, with --history-expire 1; it is alive, so its entry must survive the pass
+    if thorough {
+        let mut events = vec![];
+        for k in 0..70 {
+            // (one all-call reply, then surveillance replies with a new altitude each second: every frame is distinct)
+            let fr = if k == 1 { df11(5, 0x4b1a31, 0) } else { df4_5(4, 0, 0, 0, ac13_q(8000 + 25 * k as i32), 0x4b1a31) };
+            events.push(ev(0, if k == 0 { 0.0 } else { 1.0 }, &fr, if k == 1 { "df11" } else { "df4" }, "X", None, json!({})));
+        }
+        scenarios.push(json!({"name": "expire:1min", "group": "expire", "sensors": sensors,
+            "options": {"dedup_ms": 0, "df_filter": null, "aircraft_filter": null, "via": "cli", "rest": true, "history_expire": 1}, "events": events}));
+    }
+
     // --- C10: the same frame heard by both receivers, windows honoured
     for (w, gap, merged) in [(450, 0.05, true), (450, 0.8, false), (1500, 0.8, true), (0, 0.05, false), (200, 0.5, false)] {
         let x1 = df17(5, 0x4b1a01, &me_bds08(4, 1, &cs_codes("DUP00001")), 0);
